@@ -44,7 +44,7 @@ CASE_TIMEOUT = {'quick': 300, 'thorough': 600}
 
 
 # appended to RULE in the evidence (vlib/runner.py)
-RULE_ADDENDUM = "Added in round 6: every fourth generated network has pumps (half of them constant-power) delivering straight into small tanks, with the usual 'level below x -> pump OPEN' control; a pump held closed by a full (or drawing from an empty) tank is excused whatever the heads."
+RULE_ADDENDUM = "Added in round 6: every fourth generated network has pumps (half of them constant-power) delivering straight into small tanks, with the usual 'level below x -> pump OPEN' control; a pump held closed by a full (or drawing from an empty) tank is excused whatever the heads. Round 7: every fifth case re-sizes the cylindrical tanks that level controls look at after the controls exist."
 
 def n_cases(tier):
     return 320 if tier == 'quick' else 4500
